@@ -413,24 +413,49 @@ def _acc_loop(fi: FunctionInfo, coll_attr: str, elem_call: str) -> Tuple[bool, s
             if isinstance(it, (ast.Subscript, ast.Call)) and coll_attr in txt(it):
                 return False, "iterates `%s`, not the whole of %s" % (txt(it), coll_attr)
             continue
-        if len(lp.body) != 1 or not (isinstance(lp.body[0], ast.AugAssign) and isinstance(lp.body[0].op, ast.Add)
-                                     and isinstance(lp.body[0].target, ast.Name)):
+        b0 = lp.body[0] if len(lp.body) == 1 else None
+        acc = v = None
+        if isinstance(b0, ast.AugAssign) and isinstance(b0.op, ast.Add) and isinstance(b0.target, ast.Name):
+            acc, v = b0.target.id, b0.value
+        elif isinstance(b0, ast.Assign) and len(b0.targets) == 1 and isinstance(b0.targets[0], ast.Name) \
+                and isinstance(b0.value, ast.BinOp) and isinstance(b0.value.op, ast.Add):
+            # acc = acc + x  /  acc = x + acc
+            t = b0.targets[0].id
+            if isinstance(b0.value.left, ast.Name) and b0.value.left.id == t:
+                acc, v = t, b0.value.right
+            elif isinstance(b0.value.right, ast.Name) and b0.value.right.id == t:
+                acc, v = t, b0.value.left
+        if acc is None:
             return False, "loop body is not a single unconditional `acc += ...`"
-        acc = lp.body[0].target.id
-        v = lp.body[0].value
         var = lp.target.id if isinstance(lp.target, ast.Name) else None
         ok_call = isinstance(v, ast.Call) and (
             (isinstance(v.func, ast.Attribute) and v.func.attr == elem_call and txt(v.func.value) == var) or
             (isinstance(v.func, ast.Name) and v.func.id == elem_call and len(v.args) == 1 and txt(v.args[0]) == var))
         if not ok_call:
             return False, "accumulates `%s`, expected %s of each element" % (txt(v), elem_call)
-        inits = [a for a in walk_local(fi.node) if isinstance(a, ast.Assign) and txt(a.targets[0]) == acc]
+        inits = [a for a in walk_local(fi.node) if isinstance(a, ast.Assign) and txt(a.targets[0]) == acc and a is not b0]
         if not (len(inits) == 1 and const_num(inits[0].value) == 0):
             return False, "accumulator `%s` is not initialised to 0 exactly once" % acc
         rets = [r for r in walk_local(fi.node) if isinstance(r, ast.Return) and r.value is not None and txt(r.value) == acc]
         if not rets:
             return False, "the accumulator is not returned"
         return True, "`%s += <element>.%s()` over all of %s.%s" % (acc, elem_call, sn, coll_attr)
+    # comprehension form:  return sum(x.<elem_call>() for x in self.<coll>)
+    for r in walk_local(fi.node):
+        if isinstance(r, ast.Return) and isinstance(r.value, ast.Call) and isinstance(r.value.func, ast.Name) and r.value.func.id == "sum" \
+                and len(r.value.args) == 1 and isinstance(r.value.args[0], (ast.GeneratorExp, ast.ListComp)):
+            ge = r.value.args[0]
+            if len(ge.generators) == 1 and txt(ge.generators[0].iter) in ("%s.%s" % (sn, coll_attr), "%s.%s()" % (sn, coll_attr)):
+                if ge.generators[0].ifs:
+                    return False, "the comprehension filters the elements of %s" % coll_attr
+                var = ge.generators[0].target.id if isinstance(ge.generators[0].target, ast.Name) else None
+                v = ge.elt
+                ok_call = isinstance(v, ast.Call) and (
+                    (isinstance(v.func, ast.Attribute) and v.func.attr == elem_call and txt(v.func.value) == var) or
+                    (isinstance(v.func, ast.Name) and v.func.id == elem_call and len(v.args) == 1 and txt(v.args[0]) == var))
+                if not ok_call:
+                    return False, "sums `%s`, expected %s of each element" % (txt(v), elem_call)
+                return True, "sum(<element>.%s() ...) over all of %s.%s" % (elem_call, sn, coll_attr)
     return False, "no loop over %s.%s" % (sn, coll_attr)
 
 
@@ -536,7 +561,8 @@ def r64(ctx, res):
         monos = []
         for r in rets:
             try:
-                c, atoms = _monomial(fi, r.value, defs)
+                from ..astutil import expand_locals
+                c, atoms = _monomial(fi, expand_locals(fi.node, r.value, fi.params), defs)
             except AnalysisError:
                 continue
             if atoms:
@@ -577,6 +603,13 @@ def r64(ctx, res):
         if isinstance(a_, ast.Assign) and isinstance(a_.targets[0], ast.Name):
             defs[a_.targets[0].id] = a_.value
     rets = [r for r in walk_local(h.node) if isinstance(r, ast.Return)]
+    if len(rets) == 1 and rets[0].value is not None:
+        from ..astutil import expand_locals
+        import copy as _copy
+        r0 = _copy.copy(rets[0])
+        r0.value = expand_locals(h.node, rets[0].value, h.params)  # locals (`base = self.convex_polygon`) read as their definitions
+        rets = [r0]
+        defs = {}
     ok = False
     why = "unrecognised shape"
     if len(rets) == 1 and isinstance(rets[0].value, ast.BinOp) and isinstance(rets[0].value.op, ast.Mult) \
